@@ -165,7 +165,7 @@ func checkLHS(
 	stmt *ast.AssignStmt,
 	expr ast.Expr,
 ) *ImmutableViolation {
-	switch e := expr.(type) {
+	switch e := ast.Unparen(expr).(type) {
 	case *ast.SelectorExpr:
 		return checkFieldAssignment(ctx, stmt, e)
 	case *ast.IndexExpr:
@@ -234,7 +234,7 @@ func checkIndexAssignment(
 	stmt *ast.AssignStmt,
 	index *ast.IndexExpr,
 ) *ImmutableViolation {
-	selector, ok := index.X.(*ast.SelectorExpr)
+	selector, ok := ast.Unparen(index.X).(*ast.SelectorExpr)
 	if !ok {
 		return nil
 	}
@@ -291,7 +291,9 @@ func checkIncDec(
 	var violations []ImmutableViolation
 
 	// Check for field increment/decrement: x.field++
-	if selector, ok := node.X.(*ast.SelectorExpr); ok {
+	x := ast.Unparen(node.X)
+
+	if selector, ok := x.(*ast.SelectorExpr); ok {
 		violation := checkFieldIncDec(ctx, node, selector)
 		if violation != nil {
 			violations = append(violations, *violation)
@@ -300,7 +302,7 @@ func checkIncDec(
 	}
 
 	// Check for receiver increment/decrement: *receiver++
-	if star, ok := node.X.(*ast.StarExpr); ok {
+	if star, ok := x.(*ast.StarExpr); ok {
 		violation := checkReceiverIncDec(ctx, node, star)
 		if violation != nil {
 			violations = append(violations, *violation)
@@ -433,7 +435,7 @@ func checkCompoundLHS(
 	expr ast.Expr,
 	tok token.Token,
 ) *ImmutableViolation {
-	selector, ok := expr.(*ast.SelectorExpr)
+	selector, ok := ast.Unparen(expr).(*ast.SelectorExpr)
 	if !ok {
 		return nil
 	}
